@@ -42,6 +42,14 @@ import (
 
 func init() { register("C04", runC04) }
 
+// c04N: case count by tier; a search after a correspondence break uses a moderate count
+func c04N(c *Ctx, quick, thorough, search int) int {
+	if c.Tier == "search" {
+		return search
+	}
+	return c.N(quick, thorough)
+}
+
 func runC04(c *Ctx) error {
 	if err := c04Builds(c); err != nil {
 		return err
@@ -303,7 +311,7 @@ func c04ErrClass(err error) string {
 
 func c04Scan(c *Ctx) error {
 	r := c.Rng.Fork()
-	n := c.N(300, 3000)
+	n := c04N(c, 300, 3000, 1500)
 	for i := 0; i < n; i++ {
 		cr := r.Fork()
 		sb := cr.Range(1, 6)
@@ -387,7 +395,7 @@ func c04Scan(c *Ctx) error {
 
 func c04Csig(c *Ctx) error {
 	r := c.Rng.Fork()
-	n := c.N(160, 1600)
+	n := c04N(c, 160, 1600, 800)
 	for i := 0; i < n; i++ {
 		cr := r.Fork()
 		var bs, total int
@@ -488,7 +496,7 @@ const c04FanSlice = 16384
 
 func c04Fan(c *Ctx) error {
 	r := c.Rng.Fork()
-	n := c.N(60, 600)
+	n := c04N(c, 60, 600, 200)
 	for i := 0; i < n; i++ {
 		cr := r.Fork()
 		total := []int{0, 1, c04FanSlice - 1, c04FanSlice, c04FanSlice + 1, 3 * c04FanSlice, 65536, 65537, 100000}[cr.Intn(9)]
@@ -755,6 +763,30 @@ func c04GenBuild(r *lib.Rng, i int, thorough bool) (*lib.Build, string, bool) {
 	}
 }
 
+// c04Corpus: fixed builds that run first on every check; each one is the smallest build on which
+// one of the seeded changes of seeded/C04/NOTES.md showed (empty file before a non-empty one,
+// one byte more than a block, a short tail after full blocks, an empty file between files).
+var c04Corpus = []func(r *lib.Rng) *lib.Build{
+	func(r *lib.Rng) *lib.Build {
+		b := &lib.Build{}
+		b.Put(lib.Entry{Path: "a-empty", Kind: "file"})
+		b.Put(lib.Entry{Path: "b-data", Kind: "file", Data: structuredContent(r, bs64+1)})
+		return b
+	},
+	func(r *lib.Rng) *lib.Build {
+		b := &lib.Build{}
+		b.Put(lib.Entry{Path: "x", Kind: "file", Data: structuredContent(r, 2*bs64+5)})
+		b.Put(lib.Entry{Path: "y", Kind: "file"})
+		b.Put(lib.Entry{Path: "z", Kind: "file", Data: structuredContent(r, bs64)})
+		return b
+	},
+	func(r *lib.Rng) *lib.Build {
+		b := &lib.Build{}
+		b.Put(lib.Entry{Path: "only", Kind: "file"})
+		return b
+	},
+}
+
 // c04StandaloneStream writes a signature file the way the stand-alone signer does: header,
 // container, then the hashes of pwr.ComputeSignatureToWriter.
 func c04StandaloneStream(container *tlc.Container, pool lake.Pool, comp lib.Compression) ([]byte, error) {
@@ -929,11 +961,14 @@ func c04Groups(si *pwr.SignatureInfo, want []c04Hash) (string, string) {
 
 func c04Builds(c *Ctx) error {
 	r := c.Rng.Fork()
-	n := c.N(60, 600)
-	thorough := c.Thorough()
+	n := c04N(c, 60, 600, 150)
+	thorough := c.Tier == "thorough"
 	for i := 0; i < n; i++ {
 		cr := r.Fork()
 		b, class, small := c04GenBuild(cr, i, thorough)
+		if i < len(c04Corpus) {
+			b, class, small = c04Corpus[i](cr), fmt.Sprintf("corpus/%d", i), true
+		}
 		comp1 := lib.Compressions[(i+int(c.Seed))%len(lib.Compressions)]
 		comp2 := lib.Compressions[(i/len(lib.Compressions)+3*i+int(c.Seed)+2)%len(lib.Compressions)]
 		base := filepath.Join(c.Tmp, fmt.Sprintf("c04-%d", i))
